@@ -1,8 +1,287 @@
-//! C20 observations (see props/c20.py for the consumer).
+//! C20 observations: SPDC::try_as_optimum applied once and twice (idempotence), the shadow of try_as_optimum that answers
+//! the Coq model's oracles through the public API, the collinear oracle contracts, every normalised accessor of
+//! JointSpectrum against raw value / reference value computed through the public API, unit at the optimum's centre, and
+//! SPDCIter::jsi_values vs jsi_values_normalized.  Consumer: props/c20.py.
 #![allow(unused_imports, dead_code)]
+use crate::c16::cfgc::*;
 use crate::common::*;
-use serde_json::json;
+use serde_json::{json, Map, Value};
+use spdcalc::beam::*;
+use spdcalc::dim::f64prefixes::*;
+use spdcalc::dim::ucum::{DEG, M, RAD, S};
+use spdcalc::jsa::*;
+use spdcalc::math::Integrator;
+use spdcalc::utils::Steps2D;
+use spdcalc::*;
 
-pub fn run(_args: &[String]) {
-  emit(json!({"kind": "not_implemented", "property": "C20"}));
+fn cx(z: Complex<f64>) -> Value {
+  json!([fx(z.re), fx(z.im)])
+}
+
+/// the shadow of try_as_optimum: oracle answers for Model/Config.v, through the public API
+pub fn shadow_optimum(s: &SPDC) -> Value {
+  let mut orc = Map::new();
+  let mut waist_pos: Vec<Value> = vec![];
+  let mut steps: Vec<Value> = vec![];
+  let mut signal = s.signal.clone();
+  if s.crystal_setup.counter_propagation && !(s.signal.theta_internal() < 90. * DEG) {
+    signal.set_angles(0. * DEG, 180. * DEG);
+  } else {
+    signal.set_angles(0. * DEG, 0. * DEG);
+  }
+  let cs = s.crystal_setup.clone();
+  let te = guarded_loc(|| *(signal.theta_external(&cs) / RAD));
+  orc.insert("snell_ext".into(), match te { Ok(x) if x.is_finite() => fx(x), _ => Value::Null });
+  orc.insert("snell_inv".into(), json!([]));
+  let mut cs1 = cs.clone();
+  match &s.pp {
+    PeriodicPoling::Off => {
+      let o = outcome_plain(|| cs.optimum_theta(&signal, &s.pump));
+      orc.insert("nm_theta".into(), match &o.3 { Some(t) if (*(*t / RAD)).is_finite() => fx(*(*t / RAD)), _ => Value::Null });
+      steps.push(json!({"step": "optimum_theta", "class": o.0, "msg": o.1, "loc": o.2}));
+      if let Some(t) = o.3 {
+        cs1.theta = t;
+      }
+    }
+    PeriodicPoling::On { .. } => {
+      let z = dkz0(&signal, &s.pump, &cs);
+      orc.insert("dkz0".into(), match z { Some(z) if z.is_finite() => fx(z), _ => Value::Null });
+      let mut nm = Value::Null;
+      if let Some(z) = z {
+        if z.is_finite() && z != 0. && signal.vacuum_wavelength() > s.pump.vacuum_wavelength() {
+          nm = match nm_period_replay(&signal, &s.pump, &cs, z) { Some(p) if p.is_finite() => fx(p), _ => Value::Null };
+        }
+      }
+      orc.insert("nm_period".into(), nm);
+      let o = outcome(|| optimum_poling_period(&signal, &s.pump, &cs));
+      steps.push(json!({"step": "optimum_poling_period", "class": o.0, "msg": o.1, "loc": o.2,
+                        "value": match &o.3 { Some(p) => fx(*(*p / M)), None => Value::Null }}));
+    }
+  }
+  let io = outcome(|| IdlerBeam::try_new_optimum(&signal, &s.pump, &cs1, &s.pp));
+  orc.insert("idler_theta".into(), match &io.3 { Some(b) if (*(b.theta_internal() / RAD)).is_finite() => fx(*(b.theta_internal() / RAD)), _ => Value::Null });
+  steps.push(json!({"step": "idler_optimum", "class": io.0, "msg": io.1, "loc": io.2}));
+  let mut beams: Vec<Beam> = vec![(*signal).clone(), (*s.idler).clone()];
+  if let Some(b) = &io.3 {
+    beams.push((**b).clone()); // the NEW idler (what a repaired try_as_optimum would use)
+  }
+  for b in beams.iter() {
+    let z = guarded_loc(|| *(cs1.optimal_waist_position(b.vacuum_wavelength(), b.polarization()) / M)).unwrap_or(f64::NAN);
+    waist_pos.push(json!({"wavelength": fx(*(b.vacuum_wavelength() / M)), "pol": pol_s(b.polarization()),
+                          "r": if z.is_finite() { fx(z) } else { Value::Null }}));
+  }
+  orc.insert("waist_pos".into(), Value::Array(waist_pos));
+  // ---- oracle contracts (collinear signal)
+  let mut contract = Map::new();
+  let mut ext = vec![];
+  for th in [0.0, 0.3, 1.2, 1.5] {
+    let mut c2 = cs.clone();
+    c2.theta = th * RAD;
+    ext.push(guarded_loc(|| *(signal.theta_external(&c2) / RAD)).unwrap_or(f64::NAN));
+  }
+  contract.insert("snell_ext_vs_crystal_theta".into(), fxs(&ext));
+  let mut idl = vec![];
+  let pps = [PeriodicPoling::Off, PeriodicPoling::new(10e-6 * M, Apodization::Off), PeriodicPoling::new(-3e-6 * M, Apodization::Off), s.pp.clone()];
+  for p in pps.iter() {
+    idl.push(guarded_loc(|| IdlerBeam::try_new_optimum(&signal, &s.pump, &cs1, p).map(|b| *(b.theta_internal() / RAD)).unwrap_or(f64::NAN)).unwrap_or(f64::NAN));
+  }
+  contract.insert("idler_theta_vs_poling".into(), fxs(&idl));
+  if s.pp == PeriodicPoling::Off {
+    let mut ths = vec![];
+    for th in [0.1, 1.0] {
+      let mut c2 = cs.clone();
+      c2.theta = th * RAD;
+      ths.push(guarded_loc(|| *(c2.optimum_theta(&signal, &s.pump) / RAD)).unwrap_or(f64::NAN));
+    }
+    contract.insert("optimum_theta_vs_crystal_theta".into(), fxs(&ths));
+  }
+  json!({"oracles": orc, "steps": steps, "contracts": contract})
+}
+
+fn setup_from(j: &Value) -> Option<SPDC> {
+  let cfg = serde_json::from_value::<SPDCConfig>(j.clone()).ok()?;
+  match guarded_loc(|| cfg.try_as_spdc()) {
+    Ok(Ok(s)) => Some(s),
+    _ => None,
+  }
+}
+
+pub fn observe(id: usize, tags: Vec<String>, j: &Value, s: &SPDC, with_spectrum: bool) -> Value {
+  let o1 = outcome(|| s.clone().try_as_optimum());
+  let mut m = Map::new();
+  m.insert("kind".into(), json!("opt"));
+  m.insert("id".into(), json!(id));
+  m.insert("tags".into(), json!(tags));
+  m.insert("config".into(), j.clone());
+  m.insert("setup".into(), spdc_json(s));
+  m.insert("nonfinite0".into(), json!(spdc_all_finite(s)));
+  m.insert("first".into(), json!({"class": o1.0, "msg": o1.1, "loc": o1.2,
+    "setup": o1.3.as_ref().map(spdc_json), "nonfinite": o1.3.as_ref().map(spdc_all_finite)}));
+  m.insert("shadow".into(), shadow_optimum(s));
+  let so = match o1.3 {
+    Some(x) => x,
+    None => return Value::Object(m),
+  };
+  let o2 = outcome(|| so.clone().try_as_optimum());
+  let same = o2.3.as_ref().map(|x| spdc_json(x) == spdc_json(&so)).unwrap_or(false);
+  m.insert("second".into(), json!({"class": o2.0, "msg": o2.1, "loc": o2.2, "setup": o2.3.as_ref().map(spdc_json), "same": same,
+    "rust_eq": o2.3.as_ref().map(|x| *x == so)}));
+  m.insert("shadow2".into(), shadow_optimum(&so));
+  if let Some(s2) = &o2.3 {
+    let o3 = outcome(|| s2.clone().try_as_optimum());
+    m.insert("third_same".into(), json!(o3.3.as_ref().map(|x| spdc_json(x) == spdc_json(s2)).unwrap_or(false)));
+  }
+  // the idler is energy conserving with the type's polarization?
+  let li = *(s.idler.vacuum_wavelength() / M);
+  let (ls, lp) = (*(s.signal.vacuum_wavelength() / M), *(s.pump.vacuum_wavelength() / M));
+  let li_opt = ls * lp / (ls - lp);
+  m.insert("idler_consistent".into(), json!(((li - li_opt) / li_opt).abs() < 1e-12
+    && s.idler.polarization() == s.crystal_setup.pm_type.idler_polarization()));
+  if !with_spectrum {
+    return Value::Object(m);
+  }
+  let integ = Integrator::Simpson { divs: 10 };
+  let sp = guarded_loc(|| {
+    let js = s.joint_spectrum(integ);
+    let jso = so.joint_spectrum(integ);
+    let (w0s, w0i) = (so.signal.frequency(), so.idler.frequency());
+    let one = JSIUnits::new(1.);
+    let ref_jsa = jso.jsa(w0s, w0i).norm();
+    let ref_jsi = *(jso.jsi(w0s, w0i) / one);
+    let ref_sing = *(jso.jsi_singles(w0s, w0i) / one);
+    let (ws0, wi0) = (s.signal.frequency(), s.idler.frequency());
+    let d = 0.001;
+    let fs = FrequencySpace::new((ws0 * (1. - d), ws0 * (1. + d), 3), (wi0 * (1. - d), wi0 * (1. + d), 3));
+    let mut pts: Vec<(Frequency, Frequency)> = fs.into_signal_idler_iterator().collect();
+    let npts_grid = pts.len();
+    pts.push((w0s, w0i));
+    pts.push((ws0, wi0));
+    let mut rows = vec![];
+    for (ws, wi) in pts.iter() {
+      rows.push(json!({
+        "ws": fx(ws.value_unsafe), "wi": fx(wi.value_unsafe),
+        "jsa": cx(js.jsa(*ws, *wi)), "jsi": fx(*(js.jsi(*ws, *wi) / one)), "sing": fx(*(js.jsi_singles(*ws, *wi) / one)),
+        "jsa_n": cx(js.jsa_normalized(*ws, *wi)), "jsi_n": fx(js.jsi_normalized(*ws, *wi)), "sing_n": fx(js.jsi_singles_normalized(*ws, *wi)),
+      }));
+    }
+    // range variants
+    let r_jsa_n = js.jsa_normalized_range(fs);
+    let r_jsi_n = js.jsi_normalized_range(fs);
+    let r_sing_n = js.jsi_singles_normalized_range(fs);
+    let r_jsa = js.jsa_range(fs);
+    let r_jsi = js.jsi_range(fs);
+    let r_sing = js.jsi_singles_range(fs);
+    // idler singles: reference through the swapped setup's own optimum
+    let r_isn = js.jsi_singles_idler_normalized_range(fs);
+    let r_is = js.jsi_singles_idler_range(fs);
+    let swapped = s.clone().with_swapped_signal_idler();
+    let sw_js = swapped.joint_spectrum(integ);
+    let sw_o = swapped.clone().try_as_optimum().ok();
+    let (sw_ref, sw_vals): (f64, Vec<f64>) = match &sw_o {
+      Some(o) => {
+        let j = o.joint_spectrum(integ);
+        (*(j.jsi_singles(o.signal.frequency(), o.idler.frequency()) / one),
+         pts[..npts_grid].iter().map(|(ws, wi)| *(sw_js.jsi_singles(*wi, *ws) / one)).collect())
+      }
+      None => (f64::NAN, vec![]),
+    };
+    json!({
+      "class": "ok", "ref_jsa": fx(ref_jsa), "ref_jsi": fx(ref_jsi), "ref_sing": fx(ref_sing), "rows": rows, "ngrid": npts_grid,
+      "range": {"jsa_n": r_jsa_n.iter().map(|z| cx(*z)).collect::<Vec<_>>(), "jsi_n": fxs(&r_jsi_n), "sing_n": fxs(&r_sing_n),
+                "jsa": r_jsa.iter().map(|z| cx(*z)).collect::<Vec<_>>(),
+                "jsi": fxs(&r_jsi.iter().map(|x| *(*x / one)).collect::<Vec<_>>()),
+                "sing": fxs(&r_sing.iter().map(|x| *(*x / one)).collect::<Vec<_>>()),
+                "idler_sing_n": fxs(&r_isn), "idler_sing": fxs(&r_is.iter().map(|x| *(*x / one)).collect::<Vec<_>>())},
+      "swapped": {"ref_sing": fx(sw_ref), "sing": fxs(&sw_vals)},
+      "centre": {"jsa_n_abs": fx(jso.jsa_normalized(w0s, w0i).norm()), "jsi_n": fx(jso.jsi_normalized(w0s, w0i)),
+                 "sing_n": fx(jso.jsi_singles_normalized(w0s, w0i))},
+    })
+  });
+  m.insert("spectrum".into(), match sp { Ok(v) => v, Err((msg, loc)) => json!({"class": "panic", "msg": msg, "loc": loc}) });
+  // sweep
+  let sw = guarded_loc(|| {
+    let th = *(s.crystal_setup.theta / DEG);
+    let w = *(s.signal.waist().x / (MICRO * M));
+    let steps = Steps2D((th - 0.5, th + 0.5, 2), (w * 0.9, w * 1.1, 2));
+    let raw = SPDCIter::try_new(s.clone(), "crystal.theta_deg", "signal.waist_um", steps).unwrap().jsi_values(integ);
+    let nrm = SPDCIter::try_new(s.clone(), "crystal.theta_deg", "signal.waist_um", steps).unwrap().jsi_values_normalized(integ);
+    let setups: Vec<Value> = SPDCIter::try_new(s.clone(), "crystal.theta_deg", "signal.waist_um", steps).unwrap().into_iter()
+      .map(|x| {
+        let js = x.joint_spectrum(integ);
+        fx(*(js.jsi(x.signal.frequency(), x.idler.frequency()) / JSIUnits::new(1.)))
+      }).collect();
+    json!({"class": "ok", "raw": fxs(&raw), "normalized": fxs(&nrm), "per_setup_jsi": setups})
+  });
+  m.insert("sweep".into(), match sw { Ok(v) => v, Err((msg, loc)) => json!({"class": "panic", "msg": msg, "loc": loc}) });
+  Value::Object(m)
+}
+
+fn targeted() -> Vec<(&'static str, Value)> {
+  let base = |theta: Value, pp: Value, idler: Value, sig_theta: f64, counter: bool| {
+    json!({
+      "crystal": {"kind": "KTP", "pm_type": "e->eo", "phi_deg": 0, "theta_deg": theta, "length_um": 2000, "temperature_c": 20, "counter_propagation": counter},
+      "pump": {"wavelength_nm": 775, "waist_um": 100, "bandwidth_nm": 5.35, "average_power_mw": 1},
+      "signal": {"wavelength_nm": 1550, "phi_deg": 0, "theta_deg": sig_theta, "waist_um": 100, "waist_position_um": "auto"},
+      "idler": idler, "periodic_poling": pp, "deff_pm_per_volt": 7.6
+    })
+  };
+  let ppa = json!({"poling_period_um": "auto"});
+  let idl = |wl: f64| json!({"wavelength_nm": wl, "phi_deg": 180, "theta_deg": 0, "waist_um": 80});
+  vec![
+    ("reference:pp_auto", base(json!(90), ppa.clone(), json!("auto"), 0., false)),
+    ("reference:no_pp", base(json!(40), Value::Null, json!("auto"), 2., false)),
+    ("explicit_idler:energy_conserving", base(json!(90), ppa.clone(), idl(1550.), 0., false)),
+    ("explicit_idler:other_wavelength:pp", base(json!(90), ppa.clone(), idl(1500.), 0., false)),
+    ("explicit_idler:other_wavelength:no_pp", base(json!(40), Value::Null, idl(1600.), 1.5, false)),
+    ("noncollinear:pp_explicit", base(json!(90), json!({"poling_period_um": 46.2, "apodization": {"kind": "Gaussian", "parameter": {"fwhm_um": 1500}}}), json!("auto"), 1., false)),
+  ]
+}
+
+pub fn run(args: &[String]) {
+  install_hook();
+  if args.first().map(|s| s.as_str()) == Some("replay") {
+    let mut text = String::new();
+    use std::io::Read;
+    let _ = std::io::stdin().read_to_string(&mut text);
+    emit(json!({"kind": "units", "u": units_json()}));
+    if let Ok(j) = serde_json::from_str::<Value>(&text) {
+      match setup_from(&j) {
+        Some(s) => emit(observe(0, vec!["replay".into()], &j, &s, true)),
+        None => emit(json!({"kind": "error", "msg": "the configuration does not build a setup"})),
+      }
+    }
+    return;
+  }
+  let seed = arg_u64(args, 0, 1);
+  let n = arg_u64(args, 1, 40) as usize;
+  let nspec = arg_u64(args, 2, 10) as usize;
+  let mut rng = Rng::new(seed);
+  emit(json!({"kind": "units", "u": units_json()}));
+  let mut id = 0usize;
+  for (name, j) in targeted() {
+    if let Some(s) = setup_from(&j) {
+      emit(observe(id, vec![name.to_string()], &j, &s, true));
+    } else {
+      emit(json!({"kind": "skipped", "id": id, "tags": [name]}));
+    }
+    id += 1;
+  }
+  let mut done_spec = 0usize;
+  let mut made = 0usize;
+  let mut tries = 0usize;
+  while made < n && tries < 20 * n + 100 {
+    tries += 1;
+    let mut tags = vec![];
+    let j = gen_config(&mut rng, 0, &mut tags);
+    if let Some(s) = setup_from(&j) {
+      let with_spec = done_spec < nspec;
+      let o = observe(id, tags, &j, &s, with_spec);
+      if with_spec && o.get("spectrum").is_some() {
+        done_spec += 1;
+      }
+      emit(o);
+      id += 1;
+      made += 1;
+    }
+  }
 }
